@@ -33,6 +33,7 @@ type mapping struct {
 	poisoned bool
 	unmapped bool
 	owner    *simrt.Proc
+	unmapSeq int // number of mappings made when this one was unmapped
 }
 
 var (
@@ -72,8 +73,34 @@ func simMunmap(d *mmap.Data) error {
 	}
 	simrt.Yield("sys:munmap " + filepath.Base(m.path))
 	if m.poisoned || m.unmapped {
+		// The range is no longer this mapping's: munmap takes away whatever the
+		// kernel has placed there since. The simulated kernel reuses a freed range
+		// at once (as Linux does for a mapping that fits): the process's newest
+		// mapping made after the first unmap is the one that goes.
+		if s := simrt.S; s != nil {
+			s.Probe("munmap-of-a-range-already-unmapped")
+		}
+		for i := len(mappings) - 1; i >= m.unmapSeq && i >= 0; i-- {
+			v := mappings[i]
+			if v == m || v.owner != m.owner || v.poisoned || v.unmapped {
+				continue
+			}
+			if s := simrt.S; s != nil {
+				s.Logf("sys", "munmap %s again: the range now holds a later mapping of %s, which goes", filepath.Base(m.path), filepath.Base(v.path))
+			}
+			if realUnmap {
+				v.unmapped = true
+				return mmap.Munmap(v.d)
+			}
+			if err := syscall.Mprotect(v.full, syscall.PROT_NONE); err != nil {
+				panic("mprotect: " + err.Error())
+			}
+			v.poisoned = true
+			break
+		}
 		return nil
 	}
+	m.unmapSeq = len(mappings)
 	if realUnmap {
 		m.unmapped = true
 		return mmap.Munmap(d)
